@@ -347,6 +347,12 @@ def c07(run):
                       ("1, 2, 3", 5, False, 200, True, '"k1"', True)])
     interp_trace(run, ["C07"], "hist", sizes(run, 60, 2500), has_readat_pair)
     interp_trace(run, ["C07"], "histdoc", sizes(run, 40, 1500), has_readat_pair)
+    # a second, cheaper oracle on the same traces and on long histories (up to 40 changes, where the clock cache of the
+    # change graph is in use): the read at H, and fork_at(H), show the document that was observed live when exactly the
+    # ancestors of H were applied (Trace_Same)
+    for fam in ("hist", "histdoc"):
+        run.validate("Trace_Same.tla", ["C07"], os.path.join(run.work, fam + ".ndjson"), fam + "-same")
+    interp_trace(run, ["C07"], "histlong", sizes(run, 10, 200), has_readat_pair, spec="Trace_Same.tla")
 
 
 def has_saveload(sc):
@@ -374,6 +380,13 @@ def c11(run):
     t2 = os.path.join(run.work, "store.ndjson")
     drive(["store", run.seed, sizes(run, 20, 300), t2])
     run.validate("Trace_Storage.tla", ["C11"], t2, "store-layout", spec_kind="storage")
+    # long histories (up to 40 changes) over a 40-string list: the columns of the saved document pass the size above
+    # which they are DEFLATE-compressed, and the change graph's clock cache is in use
+    t3 = os.path.join(run.work, "reloadlong.ndjson")
+    drive(["reloadlong", run.seed, sizes(run, 10, 200), t3])
+    run.validate("Trace_Graph.tla", ["C11"], t3, "reloadlong-graph")
+    run.validate("Trace_Same.tla", ["C11"], t3, "reloadlong-same")
+    count_nontrivial(run, t3, has_saveload)
 
 
 def has_feed(sc):
